@@ -63,6 +63,11 @@ type siteWalker struct {
 	switchTags []switchCtx
 	varDefs    map[types.Object][]ast.Expr // single-definition right-hand sides
 	calls      map[string][]callCtx
+	// session details / lock discipline (details.go)
+	locks     lockState
+	sessCalls []*sessCall
+	delegates map[string]map[int]bool
+	delegated []string
 	// policy obligation
 	appendFacts []appendSite
 	switches    []panicSwitch
@@ -153,8 +158,10 @@ func (w *siteWalker) run() {
 			continue
 		}
 		a.cur, a.curPkg = n, n.Pkg
+		w.locks = lockState{}
 		w.block(n.Body.List, nil)
 	}
+	w.finishDetails()
 }
 
 func (w *siteWalker) collectDefs(b *ast.BlockStmt) {
@@ -205,6 +212,8 @@ func (w *siteWalker) collectDefs(b *ast.BlockStmt) {
 func (w *siteWalker) block(list []ast.Stmt, fs Facts) {
 	w.blockStack = append(w.blockStack, list)
 	w.stmtIndex = append(w.stmtIndex, 0)
+	heldAtEntry := w.heldCopy()
+	defer func() { w.locks.held = heldAtEntry }()
 	for i, s := range list {
 		w.stmtIndex[len(w.stmtIndex)-1] = i
 		fs = w.stmt(s, fs)
@@ -231,7 +240,9 @@ func (w *siteWalker) stmt(s ast.Stmt, fs Facts) Facts {
 	case *ast.GoStmt:
 		w.expr(s.Call, fs, "stmt")
 	case *ast.DeferStmt:
+		w.locks.inDefer = true
 		w.expr(s.Call, fs, "stmt")
+		w.locks.inDefer = false
 	case *ast.SendStmt:
 		w.expr(s.Chan, fs, "raw")
 		w.expr(s.Value, fs, "raw")
@@ -335,6 +346,9 @@ func (w *siteWalker) stmt(s ast.Stmt, fs Facts) Facts {
 		w.block(s.Body.List, fs2)
 	case *ast.RangeStmt:
 		w.expr(s.X, fs, "raw")
+		if sx, ok := w.detailsMap(s.X, 0); ok {
+			w.detailsUse(s.X.Pos(), sx, "range", exprStr(s.X))
+		}
 		fs2 := fs
 		if id, ok := s.Key.(*ast.Ident); ok && id.Name != "_" {
 			if xt := a.typeOf(s.X); xt != nil {
@@ -582,9 +596,14 @@ func (w *siteWalker) expr(e ast.Expr, fs Facts, ctx string) {
 	case *ast.FuncLit:
 		n := a.litNode[e]
 		save := a.cur
+		saveLocks := w.locks
+		if n.GoLaunched || len(n.SentOn) > 0 {
+			w.locks = lockState{} // runs in another goroutine
+		}
 		a.cur = n
 		w.block(e.Body.List, fs)
 		a.cur = save
+		w.locks = saveLocks
 	case *ast.SelectorExpr:
 		w.expr(e.X, fs, "raw")
 		w.msgDeref(e, e.X, fs)
@@ -638,6 +657,9 @@ func (w *siteWalker) indexSite(e *ast.IndexExpr, fs Facts, ctx string) {
 	case *types.Signature:
 		return
 	case *types.Map:
+		if sx, ok := w.detailsMap(e.X, 0); ok && ctx != "mapwrite" {
+			w.detailsUse(e.Pos(), sx, "read", exprStr(e))
+		}
 		t := a.ev(e.X)
 		kt := t
 		key := ""
@@ -832,6 +854,9 @@ func (w *siteWalker) sliceSite(e *ast.SliceExpr, fs Facts) {
 
 func (w *siteWalker) mapWrite(ix *ast.IndexExpr, fs Facts) {
 	a := w.a
+	if sx, ok := w.detailsMap(ix.X, 0); ok {
+		w.detailsUse(ix.Pos(), sx, "write", exprStr(ix))
+	}
 	full := a.ev(ix.X)
 	t := shape(full)
 	s := w.add(ix.Pos(), "mapwrite", t, exprStr(ix))
@@ -915,6 +940,10 @@ func (w *siteWalker) callSite(e *ast.CallExpr, fs Facts) {
 		}
 	}
 	w.noteCall(e)
+	if w.lockCall(e) {
+		return
+	}
+	w.noteSessionArgs(e)
 	fn := w.calleeFunc(e)
 	// accessor calls of package wamp
 	if fn != nil && fn.Pkg() != nil && fn.Pkg().Path() == wampPath && accessorNames[fn.Name()] && len(e.Args) > 0 {
@@ -1039,6 +1068,11 @@ func (w *siteWalker) kindFact(fs Facts, recv string, kinds ...string) bool {
 
 func (w *siteWalker) builtinSite(name string, e *ast.CallExpr, fs Facts) {
 	a := w.a
+	for _, x := range e.Args {
+		if sx, ok := w.detailsMap(x, 0); ok {
+			w.detailsUse(x.Pos(), sx, name, exprStr(e))
+		}
+	}
 	for i, x := range e.Args {
 		if i == 0 && (name == "make" || name == "new") {
 			continue
